@@ -32,6 +32,10 @@ def curated(rng):
     gs.append(P.mk_grammar("e5", [("P0", grp("plus", seq(grp("opt", grp("opt", lit("a"))), grp("nonempty", grp("star", cap("A", "strings", ref("Ident")))), lit("!"))), [F("A", "strings")])]))
     # captures applied directly to [ ] / { } groups inside modified or negated parentheses; negation of repeated terms
     gs.append(P.mk_grammar("e6", [("P0", seq(grp("plus", cap("A", "strings", grp("opt", alt(lit("-"), lit("+"))))), lit("!"), grp("nonempty", cap("B", "strings", grp("star", lit("x")))), neg(grp("star", lit(";"))), neg(grp("opt", grp("once", alt(lit("a"), lit("b")))))), [F("A", "strings"), F("B", "strings")])]))
+    # the empty literal, bare and typed; a production wider than any line width whose literals contain " | ", newlines and %
+    gs.append(P.mk_grammar("e8", [("P0", seq(cap("A", "string", lit("", "Ident")), grp("opt", lit("")), cap("B", "strings", grp("once", grp("star", alt(lit("a"), lit(""))))), lit("!")), [F("A", "string"), F("B", "strings")])]))
+    wide = [lit(" | "), lit("a | b"), lit("|"), lit(" |"), lit("x" * 30), lit("y" * 30), lit("z" * 30), lit("w" * 30), lit(" . "), lit("= "), lit("\n | \n")]
+    gs.append(P.mk_grammar("e9", [("P0", seq(cap("A", "strings", grp("once", grp("plus", grp("once", alt(*wide))))), lit("!")), [F("A", "strings")])]))
     # many productions (more than any fixed initial capacity), the later ones first reached while the root is still being printed
     n = 20
     gs.append(P.mk_grammar("e7", [("P0", seq(*([cap("N%d" % i, "node", {"op": "prod", "p": "P%d" % i}) for i in range(1, n)] + [lit("!")])), [F("N%d" % i, "node", "P%d" % i) for i in range(1, n)])] +
@@ -98,6 +102,6 @@ def run(pid, tier, args):
         ok = next((g for g in gs if verdicts[g["id"]] == "ok"), gs[0])
         v.sample({"grammar": [[p_["name"], [f["tag"] for f in p_["fields"]]] for p_ in ok["prods"]], "String()": cases[ok["id"]]["real"].get("text", "")[:400]})
         v.notes["verdicts"] = counts
-        v.notes["family"] = "%d named-type grammars: 8 curated (nested modifiers, 20 productions, modifiers on ~ and lookahead groups, groups in captures, literals needing escapes, typed literals, recursion, unions) + seeded F_core" % len(gs)
+        v.notes["family"] = "%d named-type grammars: 10 curated (nested modifiers, empty literals, very wide productions, 20 productions, modifiers on ~ and lookahead groups, groups in captures, literals needing escapes, typed literals, recursion, unions) + seeded F_core" % len(gs)
         v.assumptions += ["the ebnf package's own parser is trusted to read the text (the round-trip clause is checked on its output)", "embedded / anonymous struct types are exercised by C19's struct shapes (String() must not panic), not here"]
     return v.finish()
